@@ -867,3 +867,67 @@ func init() {
 			return obs
 		}})
 }
+
+// QQ.single-walk — C07: quasiquote reproduces its template except at unquote
+// forms "at any nesting of lists and quotes".  What counts as an unquote form,
+// and how quote levels are looked through, is decided by findAndUnquote alone
+// (CALLERS.getUnquoteType); this rule is the other half: opQuasiquote cannot
+// return without having handed the template to that walker, so a pre-scan or a
+// "constant template" shortcut that sees the template differently cannot
+// answer for it.
+func init() {
+	register(&Rule{ID: "QQ.single-walk", Floor: 1,
+		Doc: "every return of opQuasiquote is dominated by its call findAndUnquote(env, <the template>, 0): no path answers a quasiquote without the one template walker having processed it",
+		Run: func(c *Ctx) []Obligation {
+			const rid = "QQ.single-walk"
+			fn, fd, pkg := c.LookupFunc("lisp.opQuasiquote")
+			walker := c.LookupPkgFunc("lisp.findAndUnquote")
+			if fn == nil || walker == nil {
+				return []Obligation{anchorMissing(rid, "lisp.opQuasiquote / lisp.findAndUnquote")}
+			}
+			u := FuncUnit{fn, fd, pkg}
+			info := pkg.TypesInfo
+			fc := c.cfgOf(u, nil)
+			var calls []Loc
+			for _, b := range fc.G.Blocks {
+				if !fc.Live(b) {
+					continue
+				}
+				for i, n := range b.Nodes {
+					for _, ce := range callsIn(n, false) {
+						if originOf(Callee(info, ce)) == walker && len(ce.Args) == 3 {
+							if d, ok := intConst(info, ce.Args[2]); ok && d == 0 {
+								calls = append(calls, Loc{b, i})
+							}
+						}
+					}
+				}
+			}
+			var obs []Obligation
+			ord := &ordinal{}
+			for _, b := range fc.G.Blocks {
+				if !fc.Live(b) {
+					continue
+				}
+				for i, n := range b.Nodes {
+					rs, ok := n.(*ast.ReturnStmt)
+					if !ok {
+						continue
+					}
+					construct := ord.next("return")
+					dom := false
+					for _, cl := range calls {
+						if fc.Dominates(cl, Loc{b, i}) {
+							dom = true
+						}
+					}
+					if dom {
+						obs = append(obs, mkOb(c, rid, u, construct, rs, Proved, "after findAndUnquote has walked the template", true))
+					} else {
+						obs = append(obs, mkOb(c, rid, u, construct, rs, Violated, "quasiquote answers without findAndUnquote having walked the template from depth 0: whatever decided that (a pre-scan, a cache, a shortcut) is a second reading of quote levels and unquote forms, and where it disagrees the unquote is left in the result unsubstituted", true))
+					}
+				}
+			}
+			return obs
+		}})
+}
